@@ -18,8 +18,9 @@ class Unsupported(Exception):
 class PathEnd(Exception):
     """Internal: the current symbolic path ends (return / raise / infeasible)."""
 
-    def __init__(self, kind, value=None, node=None):
+    def __init__(self, kind, value=None, node=None, info=None):
         self.kind, self.value, self.node = kind, value, node
+        self.info = info          # fields of a raised exception object (e.g. line_number)
 
 
 def is_sym(x):
